@@ -50,6 +50,15 @@ try:
                     rel = os.path.relpath(os.path.join(root, f), seed)
                     if rel.replace('/', '_') in (base, rest) or f == base:
                         shutil.copy(os.path.join(root, f), os.path.join(wt, 'tests', inc))
+    # last resort: any include whose target is still missing gets the file of the same base name from the seed dir
+    for inc in re.findall(r'include_str!\("([^"]+)"\)', open(os.path.join(seed, 'demo.rs')).read()):
+        dst = os.path.join(wt, 'tests', inc)
+        if not os.path.exists(dst):
+            for root, _, files in os.walk(seed):
+                if os.path.basename(inc) in files:
+                    os.makedirs(os.path.dirname(dst), exist_ok=True)
+                    shutil.copy(os.path.join(root, os.path.basename(inc)), dst)
+                    break
     rc0, out0 = sh('%s cargo test --offline --test seed_demo 2>&1 | tail -15' % env, cwd=wt)
     demo_clean_ok = 'test result: ok' in out0
     rc, out = sh('git apply %s' % patch, cwd=wt)
